@@ -28,7 +28,7 @@ type ScenCfg struct {
 
 	// weights of step kinds
 	WWrite, WDeliver, WDeliverAll, WDrop, WDup, WCut, WHeal, WRestart, WSync, WConc, WBurst int
-	CheckEvery                                                                            int
+	CheckEvery                                                                              int
 }
 
 type Step struct {
@@ -133,7 +133,10 @@ func (r *Runner) GenOp(rng *rand.Rand) Op {
 		}
 	default:
 		x := rng.Intn(10)
-		mk := func(id string) Doc { r.Counter++; return Doc{ID: id, N: r.Counter, Tag: fmt.Sprintf("t%d", r.Counter%3)} }
+		mk := func(id string) Doc {
+			r.Counter++
+			return Doc{ID: id, N: r.Counter, Tag: fmt.Sprintf("t%d", r.Counter%3)}
+		}
 		switch {
 		case x < 2:
 			return Op{Kind: "del", Key: k}
